@@ -226,6 +226,9 @@ fn post(p: Parsed) {
             // the stored bit count is used as it was read until an operation recounts it (union / intersect do):
             // inverting twice right after the inserts exercises it while it is still the stored one
             f.invert();
+            for x in 100u64..164 {
+                f.insert(x);
+            }
             f.invert();
             let _ = (f.bits_used(), f.load_factor(), f.estimated_fpp(), f.is_empty());
             if f.capacity() <= 1 << 24 {
@@ -469,6 +472,20 @@ pub fn build_corpus(rng: &mut Rng) -> Vec<Seed> {
             };
             c.push(mk("hll", spec::hll::encode(&im, false)));
         }
+    }
+    // HLL coupon tables at and beyond their load limit: well-formed headers and distinct, valid coupons, but more of
+    // them than a table of that size may hold (full, one short of full, one above 3/4) -- plausible seeds that no
+    // writer emits; they are judged as they are and mutated like the others
+    for (lg_k, lg_arr, count, compact) in [(12u8, 5u8, 32usize, false), (12, 5, 31, false), (12, 5, 25, false), (10, 5, 32, true), (12, 6, 64, false), (9, 5, 32, false)] {
+        let tgt = (count % 3) as u8;
+        let mut b = vec![3u8, 1, 7, lg_k, lg_arr, if compact { 8 } else { 0 }, 0, 1 | (tgt << 2)];
+        b.extend((count as u32).to_le_bytes());
+        let cells = if compact { count } else { 1usize << lg_arr };
+        for i in 0..cells {
+            let coupon = if i < count { (((i % 5) as u32 + 1) << 26) | ((i as u32 * 37 + 5) & ((1 << lg_k) - 1)) } else { 0 };
+            b.extend(coupon.to_le_bytes());
+        }
+        c.push(mk("hll", b));
     }
     // theta: v1..v4
     for i in 0..12 {
